@@ -116,6 +116,8 @@ def _walk_same_scope(fn):
     todo = list(fn.body) if isinstance(fn.body, list) else [fn.body]
     while todo:
         n = todo.pop()
+        if isinstance(n, (ast.FunctionDef, ast.AsyncFunctionDef, ast.Lambda, ast.ClassDef)):
+            continue
         yield n
         for c in ast.iter_child_nodes(n):
             if isinstance(c, (ast.FunctionDef, ast.AsyncFunctionDef, ast.Lambda, ast.ClassDef)):
@@ -233,11 +235,13 @@ class LoopSpec:
 
 
 class LoopCtx:
-    def __init__(self, engine, env, k, entry):
+    def __init__(self, engine, env, k, entry, phase='head'):
         self.E = engine
         self.env = env
         self.k = k
         self.entry = entry
+        self.phase = phase          # 'entry' | 'head' | 'step'
+        self.ghost = None           # shared dict between the three evaluations of one loop cut
 
     def __getitem__(self, name):
         return self.env.vars[name]
@@ -940,10 +944,10 @@ class Engine:
                     self.throw('TypeError', "%s() missing keyword argument '%s'" % (f.name, p))
         return vars
 
-    def call_pyfunc(self, f, args, kwargs):
+    def call_pyfunc(self, f, args, kwargs, nostub=False):
         if f.unknown_decorator:
             raise Unsupported('function %s has unmodelled decorator %s' % (f.qualname, f.unknown_decorator))
-        stub = self.stubs.get(f.qualname)
+        stub = self.stubs.get(f.qualname) if not nostub else None
         if stub is not None:
             return stub(self, f, args, kwargs)
         env = Env(f.module, f, f.env)
@@ -1342,13 +1346,18 @@ class Engine:
     def cut_loop(self, node, env, spec, qual, k, test, pre_body):
         tag = '%s#loop%d' % (qual, k)
         entry = self.snapshot(env)
-        ctx0 = LoopCtx(self, env, 0, entry)
+        lghost = {}
+        ctx0 = LoopCtx(self, env, 0, entry, 'entry')
+        ctx0.ghost = lghost
         for name, e in spec.invariant(ctx0):
             self.prove('%s.inv_entry[%s]' % (tag, name), e)
         mode = self.path.choice(2, 'loop%d' % k)
         kk = self.fresh_int('k.%s' % (k,), lo=0)
-        self.havoc_loop(node, env, spec, LoopCtx(self, env, kk, entry))
-        ctx = LoopCtx(self, env, kk, entry)
+        hctx = LoopCtx(self, env, kk, entry, 'head')
+        hctx.ghost = lghost
+        self.havoc_loop(node, env, spec, hctx)
+        ctx = LoopCtx(self, env, kk, entry, 'head')
+        ctx.ghost = lghost
         self.path.ghost.setdefault('loops', {})[(qual, k)] = ctx
         for name, e in spec.invariant(ctx):
             self.assume(e)
@@ -1363,7 +1372,8 @@ class Engine:
                 return
             except ContinueSig:
                 pass
-            ctx1 = LoopCtx(self, env, mk_int(I(kk) + 1), entry)
+            ctx1 = LoopCtx(self, env, mk_int(I(kk) + 1), entry, 'step')
+            ctx1.ghost = lghost
             for name, e in spec.invariant(ctx1):
                 self.prove('%s.inv_preserved[%s]' % (tag, name), e)
             if v0 is not None:
@@ -1557,12 +1567,21 @@ class Engine:
         M = self.models
         if isinstance(cm, M.CtxManagerFromGen):
             # run generator inline: code before yield, then the with-body at the yield point
+            pending = []
+
             def on_yield(v):
                 if item.optional_vars is not None:
                     self.assign(item.optional_vars, v, env)
-                self._with(node, env, i + 1)
+                try:
+                    self._with(node, env, i + 1)
+                except (ReturnSig, BreakSig, ContinueSig) as sig:
+                    # leaving the with-body by return/break/continue: __exit__(None, None, None) resumes the
+                    # generator normally after its yield; the jump is completed afterwards
+                    pending.append(sig)
                 return None
             self.run_generator(cm.gen, on_yield)
+            if pending:
+                raise pending[0]
             return
         if isinstance(cm, SObj):
             enter, _ = cm.cls.lookup('__enter__')
